@@ -17,13 +17,16 @@ class C02(PipelineProp):
             "PretextView-model edit scripts only: any cut set on the texel grid with pieces >= 2 texels, any "
             "permutation / orientation / grouping, per-scaffold texel count floor or ceil, sub-texel scaffolds "
             "present or absent, texel 1 bp .. total/3, painted or unpainted, forward and reverse input contigs, "
-            "contig ends at all offsets from the cuts (lengths from 1 bp). oracle: remapping completes; core bases "
+            "contig ends at all offsets from the cuts (lengths from 1 bp); 35% boundary sweeps: a cut exactly d bases inside a contig, d around 1, 2, 3 error lengths (3e-1 .. 3e+3), texel sizes with fractional part below and above one half. oracle: remapping completes; core bases "
             "of each piece map affinely into one output scaffold with orientation input x piece; same-destination "
             "pieces keep Pretext order; deep cuts split exactly at the designated coordinate. non-trivial = "
             "distinct completed case with at least one piece longer than 6 error lengths"
         )
 
     def gen_case(self, rng):
+        if rng.random() < 0.35:
+            inp, ptx, pieces = P.gen_boundary_sweep(rng)
+            return {"gen": "sweep", "input": inp, "pretext": ptx, "prefix": "SUPER_", "pieces": pieces}
         inp = P.gen_input(rng, style=rng.choice(["tpf", "tpf", "fasta"]))
         ptx, pieces = P.gen_pretext(rng, inp, "edit")
         return {"gen": "edit", "input": inp, "pretext": ptx, "prefix": "SUPER_", "pieces": pieces}
